@@ -67,6 +67,90 @@ ITEMS = {
     'modify_20_ph': (lambda u: W.p_modify_attribute_20(u, AT.NAME, 'renamed', 'n'), True, False),
     'delete_20_ph': (lambda u: W.p_delete_attribute_20(u, AT.NAME, 'n'), True, False),
 }
+# ---- the wide family: attribute operations and multi-step creations aimed at object 5 (two names,
+# two groups, two application-specific entries). Most of them SUCCEED on a correct server; they are
+# here so that an item which some change makes fail half-way is followed by an item that commits.
+APPI = lambda d: {"application_namespace": 'ns', "application_data": d}      # noqa
+WIDE_1X = {
+    'w_mod_name_dup': lambda u: W.p_modify_attribute_1x('5', AT.NAME, 'w1', 0),
+    'w_mod_name_new1': lambda u: W.p_modify_attribute_1x('5', AT.NAME, 'fresh', 1),
+    'w_mod_name_noidx': lambda u: W.p_modify_attribute_1x('5', AT.NAME, 'fresh2'),
+    'w_mod_name_oob': lambda u: W.p_modify_attribute_1x('5', AT.NAME, 'fresh', 5),
+    'w_del_name0': lambda u: W.p_delete_attribute_1x('5', 'Name', 0),
+    'w_del_name1': lambda u: W.p_delete_attribute_1x('5', 'Name', 1),
+    'w_del_name_oob': lambda u: W.p_delete_attribute_1x('5', 'Name', 5),
+    'w_mod_group_dup': lambda u: W.p_modify_attribute_1x('5', AT.OBJECT_GROUP, 'g1', 0),
+    'w_mod_group_new': lambda u: W.p_modify_attribute_1x('5', AT.OBJECT_GROUP, 'gx', 1),
+    'w_del_group1': lambda u: W.p_delete_attribute_1x('5', 'Object Group', 1),
+    'w_mod_app_new': lambda u: W.p_modify_attribute_1x(
+        '5', AT.APPLICATION_SPECIFIC_INFORMATION, APPI('dx'), 0),
+    'w_mod_app_dup': lambda u: W.p_modify_attribute_1x(
+        '5', AT.APPLICATION_SPECIFIC_INFORMATION, APPI('d0'), 1),
+    'w_del_app0': lambda u: W.p_delete_attribute_1x('5', 'Application Specific Information', 0),
+    'w_mod_sensitive': lambda u: W.p_modify_attribute_1x('5', AT.SENSITIVE, True),
+    'w_mod_mask': lambda u: W.p_modify_attribute_1x('5', AT.CRYPTOGRAPHIC_USAGE_MASK, [CUM.SIGN]),
+    'w_mod_policy': lambda u: W.p_modify_attribute_1x('5', AT.OPERATION_POLICY_NAME, 'public'),
+    'w_activate5': lambda u: W.p_activate('5'),
+    'w_revoke5_compromise': lambda u: W.p_revoke('5', E.RevocationReasonCode.KEY_COMPROMISE),
+    'w_destroy5': lambda u: W.p_destroy('5'),
+    'w_register_rich': lambda u: W.p_register(W.pie_secret(), W.common_attrs(
+        names=['r0', 'r1'], groups=['g0'], appinfo=[('ns', 'd0')])),
+    'w_register_rich_then_bad': lambda u: W.p_register(W.pie_symmetric(), W.common_attrs(
+        names=['r0', 'r1'], groups=['g0'], appinfo=[('ns', 'd0')]) + [
+            W.attr(AT.CRYPTOGRAPHIC_LENGTH, 64)]),
+    'w_register_dup_group': lambda u: W.p_register(W.pie_secret(), W.common_attrs(
+        names=['r0'], groups=['g0', 'g0'])),
+    'w_create_rich': lambda u: W.p_create(W.sym_attrs(masks=MASKS, names=['c0', 'c1'], groups=['g0'])),
+    'w_create_rich_then_bad': lambda u: W.p_create(W.sym_attrs(masks=MASKS, names=['c0', 'c0'])),
+    'w_pair_bad_private': lambda u: W.p_create_key_pair(**W.rsa_pair_attrs(
+        pub_masks=(CUM.VERIFY,), priv_masks=(CUM.VERIFY, CUM.ENCRYPT, CUM.MAC_GENERATE))),
+    'w_derive_bad_length': lambda u: W.p_derive_key(['4'], attrs=W.sym_attrs(length=100, masks=MASKS)),
+    'w_derive_rich': lambda u: W.p_derive_key(['4'], attrs=W.sym_attrs(masks=MASKS, names=['d0', 'd1'],
+                                                                       groups=['g0'])),
+}
+WIDE_20 = {
+    'w_set_sensitive': lambda u: W.p_set_attribute('5', AT.SENSITIVE, True),
+    'w_set_name': lambda u: W.p_set_attribute('5', AT.NAME, 'fresh'),
+    'w_set_mask': lambda u: W.p_set_attribute('5', AT.CRYPTOGRAPHIC_USAGE_MASK, [CUM.SIGN]),
+    'w_mod20_name_dup': lambda u: W.p_modify_attribute_20('5', AT.NAME, 'w1', 'w0'),
+    'w_mod20_name_new': lambda u: W.p_modify_attribute_20('5', AT.NAME, 'fresh', 'w1'),
+    'w_mod20_name_absent': lambda u: W.p_modify_attribute_20('5', AT.NAME, 'fresh', 'nosuch'),
+    'w_mod20_name_nocur': lambda u: W.p_modify_attribute_20('5', AT.NAME, 'fresh'),
+    'w_mod20_group_dup': lambda u: W.p_modify_attribute_20('5', AT.OBJECT_GROUP, 'g1', 'g0'),
+    'w_mod20_app_new': lambda u: W.p_modify_attribute_20(
+        '5', AT.APPLICATION_SPECIFIC_INFORMATION, APPI('dx'), APPI('d0')),
+    'w_mod20_sensitive': lambda u: W.p_modify_attribute_20('5', AT.SENSITIVE, True, False),
+    'w_del20_name_cur': lambda u: W.p_delete_attribute_20('5', AT.NAME, 'w0'),
+    'w_del20_name_absent': lambda u: W.p_delete_attribute_20('5', AT.NAME, 'nosuch'),
+    'w_del20_group_ref': lambda u: W.p_delete_attribute_20('5', AT.OBJECT_GROUP),
+    'w_del20_app_cur': lambda u: W.p_delete_attribute_20(
+        '5', AT.APPLICATION_SPECIFIC_INFORMATION, APPI('d1')),
+    'w_del20_sensitive_ref': lambda u: W.p_delete_attribute_20('5', AT.SENSITIVE),
+    'w_activate5': WIDE_1X['w_activate5'], 'w_destroy5': WIDE_1X['w_destroy5'],
+    'w_register_rich': WIDE_1X['w_register_rich'],
+    'w_register_dup_group': WIDE_1X['w_register_dup_group'],
+    'w_create_rich_then_bad': WIDE_1X['w_create_rich_then_bad'],
+}
+for _k, _f in list(WIDE_1X.items()) + list(WIDE_20.items()):
+    ITEMS[_k] = (_f, False, _k.startswith(('w_register', 'w_create', 'w_pair', 'w_derive')))
+
+
+def wide_family(tier):
+    """(item names, version): every wide item followed by a committing item under Continue, preceded
+    by one, and every ordered pair of wide items followed by a committing item under Continue."""
+    out = []
+    for version, wide in (((1, 4), WIDE_1X), ((2, 0), WIDE_20)):
+        ws = list(wide)
+        for x in ws:
+            out.append(((x, 'create'), version))
+            out.append(((x, 'modify_1'), version) if version != (2, 0) else ((x, 'activate_1'), version))
+            out.append((('create', x), version))
+            for y in ws:
+                if y != x:
+                    out.append(((x, y, 'create'), version))
+    return out
+
+
 SETTERS = ['create_named', 'create_key_pair', 'register_sym', 'derive_key']
 READERS_1X = ['get_ph', 'get_attributes_ph', 'get_attribute_list_ph', 'activate_ph', 'revoke_ph',
               'destroy_ph', 'modify_ph', 'delete_attribute_ph', 'encrypt_ph', 'decrypt_ph', 'mac_ph',
@@ -115,6 +199,10 @@ def store(kind):
             w.do(VERSION, W.p_register(W.pie_symmetric(value=b'\x55' * 16), [
                 W.attr(AT.CRYPTOGRAPHIC_USAGE_MASK, [CUM.DERIVE_KEY])]))                     # 4
             w.do(VERSION, W.p_activate('4'))
+            r5 = w.do(VERSION, W.p_register(W.pie_symmetric(value=b'\x66' * 16), W.common_attrs(
+                names=['w0', 'w1'], groups=['g0', 'g1'], appinfo=[('ns', 'd0'), ('ns', 'd1')]) + [
+                    W.attr(AT.CRYPTOGRAPHIC_USAGE_MASK, MASKS)]))                            # 5
+            assert r5.uid() == '5', r5.brief()
             if kind == 'active':
                 w.do(VERSION, W.p_activate('1'))
         _STORE_CACHE[kind] = w
@@ -298,8 +386,10 @@ def _worker(task):
     part = Part()
     sigs = set()
     for entry in seqs:
+        wide = False
         if isinstance(entry[0], tuple):
-            names, version = entry
+            names, version = entry[:2]
+            wide = len(entry) > 2
             headers = [h for h in FAMILY_HEADERS if h[0] == 'all' or len(names) == 1]
             family = True
         else:
@@ -307,9 +397,13 @@ def _worker(task):
         for hdr in headers:
             bad, sig = run_batch(names, hdr, version,
                                  check_failed=family or tier == 'thorough' or len(names) <= 2)
-            part.count('family_batches' if family else 'batches')
+            part.count(('wide_batches' if wide else 'family_batches') if family else 'batches')
             sigs.add(sig)
-            if family:
+            if wide:
+                part.counters.setdefault('_wide', set()).add((names[0 if names[0] != 'create' else 1],
+                                                              version, sig[0][:1] if names[0] != 'create'
+                                                              else sig[0][1:2]))
+            elif family:
                 part.count('family_last_ok' if sig[0] and sig[0][-1] == 0 and len(sig[0]) == len(names)
                            else 'family_last_not_ok')
             for key, what in bad:
@@ -322,8 +416,10 @@ def _worker(task):
                         hdr[1].name if hdr[1] else None, hdr[2], hdr[3]]})
     last = seqs[-1][0] if isinstance(seqs[-1][0], tuple) else seqs[-1]
     part.sample({'items': list(last)})
+    wide_out = sorted(part.counters.pop('_wide', set()), key=repr)
     out = part.as_dict()
     out['sigs'] = sorted(sigs, key=repr)
+    out['wide'] = wide_out
     return out
 
 
@@ -338,12 +434,22 @@ def run(tier, seed):
         seqs += list(itertools.product(QUICK_ITEMS[:10], repeat=4))
     fam = placeholder_family()
     seqs += fam
+    wide = [e + ('wide',) for e in wide_family(tier)]
+    seqs += wide
     nshard = 64
     sigs = set()
+    wide_out = set()
     for part in pmap(_worker, [(seqs[i::nshard], tier) for i in range(nshard)]):
         sigs.update(repr(s) for s in part.pop('sigs', []))
+        wide_out.update(tuple(map(repr, x)) for x in part.pop('wide', []))
         rep.merge(part)
-    b = rep.counters.get('batches', 0) + rep.counters.get('family_batches', 0)
+    b = (rep.counters.get('batches', 0) + rep.counters.get('family_batches', 0) +
+         rep.counters.get('wide_batches', 0))
+    wide_ok = len([x for x in wide_out if x[2] == '(0,)'])
+    wide_fail = len([x for x in wide_out if x[2] == '(1,)'])
+    if wide_ok < 20 or wide_fail < 10:
+        rep.harness_error("vacuous: wide family has %d succeeding and %d failing (item, version) "
+                          "classes" % (wide_ok, wide_fail))
     if rep.counters.get('family_last_ok', 0) < len(fam) // 3:
         rep.harness_error("vacuous: the placeholder reached a succeeding reader in only %s of %d "
                           "family batches" % (rep.counters.get('family_last_ok'), len(fam)))
@@ -354,6 +460,7 @@ def run(tier, seed):
         item_alphabet=len(alphabet), max_batch_length=4 if tier == 'thorough' else 3,
         item_sequences=len(seqs), placeholder_family_sequences=len(fam),
         placeholder_family_reader_succeeded=rep.counters.get('family_last_ok', 0),
+        wide_family_sequences=len(wide), wide_items_succeeding=wide_ok, wide_items_failing=wide_fail,
         distinct_status_signatures=len(sigs), exhaustive=True,
         explanation="every item sequence up to the length bound over the alphabet x header variants "
                     "with <= 1 deviation (<= 2 for batches of length <= 2) from (ids on all items, no "
@@ -363,7 +470,11 @@ def run(tier, seed):
                     "fail identically. Placeholder family: every operation that sets the ID "
                     "placeholder (Create, CreateKeyPair, Register, DeriveKey) x every operation that "
                     "reads it (13 under KMIP 1.2, 12 under 2.0), as setter-reader, "
-                    "setter-Activate-reader and setter-setter-reader batches",
+                    "setter-Activate-reader and setter-setter-reader batches. Wide family: 27 (KMIP "
+                    "1.4) + 20 (KMIP 2.0) attribute operations and multi-row creations aimed at an "
+                    "object with two names/groups/application entries, most of which succeed on a "
+                    "correct server: [x, committing item], [Create, x] and every ordered pair [x, y, "
+                    "Create], each under the default and the Continue option",
     ), assumptions=[
         "os.urandom is replaced by a length-determined constant so that batch and twin create equal "
         "key material; time is a logical clock",
